@@ -59,8 +59,9 @@ CLAIMED = {
     'C16': dict(
         text='Theorems in coq/props/C16.v over the models of vectorisePositions (generator with early return), blur, toRelativeGenomicPositions, createPeaks cut and selectPeaks: bit i set iff a label in bin i, '
              'labels within [start,end] covered, blur length/bit characterisation, bin centre within res/2, top-N (descending, stable, nothing better left out), per-correlation argpartition cut harmless for any admissible cut (section argument, not an axiom); exact model of scipy.correlate(valid) incl. its operand swap, bounds, maximum iff the query vector is covered, normalising factor. '
-             'Tie: exhaustive small vectors/blurs/peak lists + random, model in Coq vs the real functions.',
-        note=NOTE + 'numpy argpartition is an arbitrary admissible cut; heights/scores integer valued.', design='6 (C16)', technique='Coq proof + exhaustive small-case correspondence + oracle'),
+             'Executable seeding stage (model/FindPeaks.v, Seeding.v): scipy find_peaks (local maxima = plateau midpoints with strictly lower neighbours, height/distance/prominence conditions; distance selection proved for EVERY valid argsort), createPeaks, noise-level score decided exactly, selectPeaks, refine: seeds_model yields at most peaksCount seeds and satisfies the run model\'s seeds_ok. '
+             'Tie: exhaustive small vectors/blurs/peak lists + random, model in Coq vs the real functions; real scipy.signal.find_peaks vs the model; the real coordinator seeding chain vs Seeding.v (float tier: code\'s own correlations passed in; exact tier: from the maps alone, disagreement tolerated only where an independent exact-rational recomputation shows FFT rounding noise decides).',
+        note=NOTE + 'numpy argpartition/argsort are arbitrary admissible arrangements (theorems quantify over them); FFT rounding of the primary correlation is outside the model (cases it decides are flagged and counted in the evidence).', design='6 (C16), 10.1', technique='Coq proof + exhaustive small-case correspondence + seeding-chain correspondence + oracle'),
     'C18': dict(
         text='Theorems in coq/props/C18.v over a text-level model of XmapReader.writeAlignments/readAlignments: number codecs (tenths, hundredths, truncation toward zero), pair-list codec, tab split/join, single line and whole file round trip '
              'for any number of rows incl. 0 and 1, both strands, AlignedRest either; HitEnum text parses back to the runs; C18_run_files_readable: every output file of the run model without joined rows (and the main files provided their joined rows are valid matchings) satisfies the round-trip hypothesis, so the reader returns one alignment per record with the expected fields. Tie: real writer text vs model text byte-wise on data lines; real reader vs model reader; Python round-trip oracle.',
@@ -74,8 +75,10 @@ CLAIMED = {
         text='PARTIAL. coq/props/C06.v proves the deterministic half for all maps with neighbouring labels > 2*delta apart, all windows, both strands, any seed within delta of the true diagonal: '
              'the pairing returns exactly the true pairs each with |offset| = |seed - true| <= delta and only unpaired reference labels around them, the factory returns one segment holding all pairs, the row lists the true pairs '
              'and its HitEnum is nM (default parameters satisfy the side conditions for every n >= 2); bin centre within half a resolution. Seeding, in exact arithmetic (model/Correlate.v: exact integer cross-correlation of the blurred bit vectors, normalising factor as a rational): for a planted copy on the resolution grid the true lag is a global maximum of the correlation and the normalised correlation there is exactly 1 (C06_true_lag_is_global_max, C06_true_lag_window_normalised); off the grid only a bound holds and the full claim is refuted by a counterexample (C06_true_lag_any_offset_partial, C06_off_lattice_not_max). NOT provable in this family: FFT rounding and scipy.find_peaks plateau/edge handling, i.e. that a seed within delta of the '
-             'true diagonal is actually selected and that this candidate wins — that hypothesis is MEASURED by the end-to-end oracle on planted queries in all four modes (exact pairs, strand, nM, |queryShift| <= 200 from the captured winning candidate).',
-        note=NOTE + 'numpy/scipy seeding numerics are outside the model; multi-peak winning candidates are measured only.', design='6 (C06), 10.4', technique='Coq proof of the conditional core + measured seeding hypothesis (end-to-end planted queries) + pipeline correspondence'),
+             'true diagonal is actually selected and that this candidate wins — that hypothesis is MEASURED by the end-to-end oracle on planted queries in all four modes (exact pairs, strand, nM, |queryShift| <= 200 from the captured winning candidate). '
+             'With the executable seeding model (FindPeaks.v/Seeding.v): C06_true_lag_yields_seed/_at_lag/_primary_peak — for a grid-aligned planted copy find_peaks returns a peak of height exactly 1 on (or within the peak distance of) the plateau of the true lag with a reference window identical to the query vector, and no peak is higher; the remaining gap (identical windows elsewhere, ranking across correlations, refine, floats) is stated in C06.v. '
+             'The seeding-chain correspondence stream of C16 is part of this check too.',
+        note=NOTE + 'FFT rounding is outside the model; multi-peak winning candidates are measured only.', design='6 (C06), 10.4', technique='Coq proof of the conditional core + measured seeding hypothesis (end-to-end planted queries) + pipeline correspondence'),
     'C04': dict(
         text='Theorems in coq/props/C04.v for ALL parameter values, maps, seed-peak lists, both strands: pair score = SP - DPU*|offset|, unpaired = SU; every segment reported by the model of Aligner.align has score = sum of its positions and its '
              'positions are configured-score images of the engine output of ITS OWN peak (nothing re-scored through factory, chain, slice, __sub__, resolver); confidence = recomputed double sum (also from raw label positions; also for joined rows); '
@@ -85,7 +88,7 @@ CLAIMED = {
     'C05': dict(
         text='Theorems in coq/props/C05.v over model/Coordinator.v + Multi.v for every seeding function: filter_subsequent keeps exactly the first maximum-confidence row per query, ascending ids, idempotent; main file of every mode and the first/second-pass '
              'files have strictly ascending (hence unique) query ids; align_query returns the first maximum-confidence candidate in seed order, execute keeps it iff it has pairs; in best mode the record set is exactly the queries with a first- or second-pass row, each once, ascending. '
-             'Tie: exhaustive/random synthetic rows for the filters; end-to-end runs with -p in {1,3,6}: first-pass record = first maximum captured candidate; whole runs replayed through the Coordinator model with the captured seeds.',
+             'Tie: exhaustive/random synthetic rows for the filters; end-to-end runs with -p in {1,3,6}: first-pass record = first maximum captured candidate; whole runs replayed through the Coordinator model with the captured seeds, and (e2e_run_full_model) whole runs reproduced by Seeding.program_run_full from the input maps and the command line alone (executable seeding stage, no captured seeds). Data sets include a duplicated contig (exact ties between references) and palindromic molecules (equal seeds on both strands).',
         note=NOTE + 'Seeding numerics are an arbitrary function (theorems hold for all of them).', design='6 (C05)', technique='Coq proof over an abstract seeding function + run-model correspondence + end-to-end oracle with candidate capture'),
     'C08': dict(
         text='Theorems in coq/props/C08.v for every seeding function, parameters, maxDifference: main(all) = main(joined), _1/_2(all) = main/_1(separate), AlignedRest flags, groups are a partition of size <= 2, every single-pass row is un-joined or part of exactly one joined row, '
@@ -94,7 +97,7 @@ CLAIMED = {
         note=NOTE + 'Open finding F7 (join uses only the first segments) is listed in known_findings.json with its witness and matched by a specific signature; F12 (best-mode self-join) was repaired.', design='6 (C08), 10.4', technique='Coq proof + refutation witness + run-model correspondence + four-mode text oracle with known-finding signature'),
     'C10': dict(
         text='Theorems in coq/props/C10.v for every seeding function (query-locality is its type; reference order is discharged at the reader level via C17_perm): execute = concatenation of per-query results; records of a query are the same in a run on all queries, on any subset, on [q] alone and under any permutation (all modes, up to the unprinted source counter); '
-             'runs on row/molecule-permuted CMAP files are identical; -qId/-rId = physically restricted files. Tie: real runs (full, shuffled rows, subset, complement, -qId, -rId, added queries, single-molecule runs, colliding id spaces) compared as text; run-model stream across variants.',
+             'runs on row/molecule-permuted CMAP files are identical; -qId/-rId = physically restricted files. Tie: real runs (full, shuffled rows, subset, complement, -qId, -rId, added queries, single-molecule runs, colliding id spaces; every data set has a duplicated contig, molecules are listed in non-ascending id order and make their first appearance in opposite orders in the two files) compared as text; run-model stream across variants.',
         note=NOTE + 'XmapEntryID is excluded from "the record" (it is a running number).', design='6 (C10)', technique='Coq proof (locality of every grouping step; erasure of the source counter) + end-to-end variant comparison'),
     'C11': dict(
         text='PARTIAL. coq/props/C11.v proves the deterministic half: positions_with_ids of the mirror image on the other strand = renumbered labels; pairing commutes with renumbering under the no-tie hypothesis (which holds on a lattice with 2d < step); scoring, factory, chain, conflict step, resolver, Aligner.align, Row.create (same reference span and confidence, start/end exchanged) and HitEnum commute with any injective renumbering; '
@@ -109,13 +112,13 @@ CLAIMED = {
     'C09': dict(
         text='PARTIAL. coq/props/C09.v proves the logic that makes the output schedule independent: the only cross-task state is the per-process iteration counter, which reaches only the `source` field of pairs; every stage (pairing ... resolver, row, fragments, filters, join, '
              'multi-pass assembly) commutes with erasing `source`, Aligner.align is independent of the counter up to source incl. the Ok/Err outcome, and for ANY assignment of counters to tasks (any worker count, any completion order, results assembled by task index) the rows and the printed XMAP data lines are identical; '
-             'the sequential model run is one such schedule. NOT expressible in a Gallina model: real process scheduling, pickling, OS behaviour, p_imap returning results in input order (trusted) — exercised by real runs with -c 1,2,3,5,8,16, repetitions, jittered completion orders and recorded execute() order, files compared byte-wise minus the "# coma" line.',
+             'the sequential model run is one such schedule. NOT expressible in a Gallina model: real process scheduling, pickling, OS behaviour, p_imap returning results in input order (trusted) — exercised by real runs with -c 1,2,3,5,8,16, repetitions, jittered completion orders and recorded execute() order, plus 128 (quick) / 900 (thorough) small data sets each run with -c 1 and with a worker count cycling through 2..16 (workload size x worker count pairs), files compared byte-wise minus the "# coma" line.',
         note=NOTE + 'p_tqdm.p_imap input-order contract and process isolation are trusted; seeding numerics assumed deterministic (checked by repetition).', design='6 (C09), 10.4',
         technique='Coq proof (source-erasure noninterference over all schedules) + pipeline correspondence with different counters + end-to-end multi-worker byte comparison'),
     'C07': dict(
         text='PARTIAL. coq/props/C07.v covers the modelled glue: every segment Aligner.align builds (SU <= 0 < MS) starts and ends on a pair, so all accessors, the pre-order and the chain are total; slice raises exactly when its kept window consists of poppable positions only, resolve_pair raises only through slice, the first resolution step between factory segments is total; '
-             'C07_run_total: Coordinator.program_run (both passes, fragments, filters, join, all modes) never raises for any seeding function naming sorted references, trimmed queries with distinct ids, SU <= 0 < MS; C07_aligner_total: the model of Aligner.align never raises for SU <= 0 < MS, any maps, any seed-peak list, both strands; cigarString is total on valid matchings; the reader is total on every file the writer produces incl. zero records (re-export of C18); regression witnesses for the repaired defects (join IndexError before F8, pair-less joined row before F9) next to theorems that the current code handles them. NOT expressible in a Gallina model: exceptions raised inside numpy/scipy/pandas, memory, signals — exercised by a degenerate-input corpus through the real CLI in every mode, '
-             'parameter corners, read-back of every written file with the project reader, and a crash-search stream over first pass -> fragments -> second pass -> join -> writer -> reader.',
+             'C07_run_full_total: the run model with the executable seeding stage never raises; C07_run_total: Coordinator.program_run (both passes, fragments, filters, join, all modes) never raises for any seeding function naming sorted references, trimmed queries with distinct ids, SU <= 0 < MS; C07_aligner_total: the model of Aligner.align never raises for SU <= 0 < MS, any maps, any seed-peak list, both strands; cigarString is total on valid matchings; the reader is total on every file the writer produces incl. zero records (re-export of C18); regression witnesses for the repaired defects (join IndexError before F8, pair-less joined row before F9) next to theorems that the current code handles them. NOT expressible in a Gallina model: exceptions raised inside numpy/scipy/pandas, memory, signals — exercised by a degenerate-input corpus through the real CLI in every mode, '
+             'parameter corners (incl. thresholds low enough for one-/two-label molecules to get records, -rId/-qId selecting nothing / subsets, molecules without labels so that the reference or query list is empty), read-back of every written file with the project reader, and a crash-search stream over first pass -> fragments -> second pass -> join -> writer -> reader.',
         note=NOTE + 'Findings F8, F9, F11 were repaired in /repo (fix: commits) and are listed in known_findings.json with their witnesses (now regression cases in corpus/C07).', design='6 (C07), 10.2', technique='Coq totality proofs for the modelled glue + refutation witnesses + degenerate end-to-end corpus and crash-search oracle'),
 }
 PENDING_REASON = 'check not built yet in this round (planned: DESIGN.md section 6); will be claimed once its model, theorems and correspondence run'
